@@ -230,6 +230,7 @@ func (sc *SubscriptionScope) Track(s Subscription) Subscription {
 	sc.mu.Lock()
 	defer sc.mu.Unlock()
 	if sc.closed {
+		verifScopePoint(sc, "track_nil", s)
 		return nil
 	}
 	if sc.subs == nil {
@@ -237,6 +238,7 @@ func (sc *SubscriptionScope) Track(s Subscription) Subscription {
 	}
 	ss := &scopeSub{sc, s}
 	sc.subs[ss] = struct{}{}
+	verifScopePoint(sc, "track_add", s)
 	return ss
 }
 
@@ -246,13 +248,17 @@ func (sc *SubscriptionScope) Close() {
 	sc.mu.Lock()
 	defer sc.mu.Unlock()
 	if sc.closed {
+		verifScopePoint(sc, "close_skip", nil)
 		return
 	}
 	sc.closed = true
+	verifScopePoint(sc, "close_begin", nil)
 	for s := range sc.subs {
 		s.s.Unsubscribe()
+		verifScopePoint(sc, "close_unsub", s.s)
 	}
 	sc.subs = nil
+	verifScopePoint(sc, "close_done", nil)
 }
 
 // Count returns the number of tracked subscriptions.
@@ -265,9 +271,11 @@ func (sc *SubscriptionScope) Count() int {
 
 func (s *scopeSub) Unsubscribe() {
 	s.s.Unsubscribe()
+	verifScopePoint(s.sc, "wunsub", s.s)
 	s.sc.mu.Lock()
 	defer s.sc.mu.Unlock()
 	delete(s.sc.subs, s)
+	verifScopePoint(s.sc, "wdel", s.s)
 }
 
 func (s *scopeSub) Err() <-chan error {
